@@ -185,8 +185,8 @@ def units(tier):
     q = tier == 'quick'
     us = []
     for kind in ('cpa', 'cpa_alt', 'dpa'):
-        for i in range(4 if q else 5):
-            us.append({'name': 'gen-%s-%d' % (kind, i), 'fn': 'unit_generated', 'kwargs': {'kind': kind, 'n': 300 if q else 3000}})
+        for i in range(4 if q else 10):
+            us.append({'name': 'gen-%s-%d' % (kind, i), 'fn': 'unit_generated', 'kwargs': {'kind': kind, 'n': 300 if q else 8000}})
     return us
 
 
